@@ -49,6 +49,7 @@ Section Take.
         destruct (find j (works s)) as [[| | | |]|] eqn:Ef; try discriminate; destruct stage as [|[|?]]; try discriminate.
       all: try (destruct (has_term c); repeat match type of H with (match ?b with _ => _ end) = _ => destruct b eqn:?; try discriminate end; injection H as <-;
                 first [same | (repeat split; cbn; auto; try discriminate; intros _; right; right; discriminate)]; fail).
+      all: destruct (tfe_blocked c s) eqn:Etb; [discriminate|].
       all: cbv zeta in H.
       all: set (s1 := set_works s (setw j WDone (works s))) in *.
       all: assert (I1 : TInv n s1) by same.
